@@ -123,6 +123,10 @@ def c02(ck):
                   "projection; non-trivial = has an item; distinct by (message projection, bytes)")
     if ck.violations:
         return
+    # items and messages at the size boundaries (run-length summaries): header, payload, message frame
+    ck.trace("big", "big", [], "TraceCodec", "TraceCodec.cfg", ["InvBig"], nontrivial=lambda e: e.get("n", 0) >= 31)
+    if ck.violations:
+        return
     c02_values(ck)
 
 
